@@ -33,6 +33,7 @@ func init() {
 func runC25(c *Ctx) {
 	w := c.W
 	c25Extras(c)
+	c25Extras3(c)
 	c.alertSummary()
 	dec := w.Fn(fnDecrypt)
 	if dec == nil {
